@@ -3,9 +3,26 @@
 Parties: the real `Transform.apply` on real shapes; the property oracle (class, points against the transform applied
 to the bare array, every landmark group at every depth against the transform applied to its bare array, every
 other attribute by deep digest, deep digests of the input shape / its landmarks / the transform / the bare array
-before and after, aliasing, write-through); the Lean model (value level `applyV`, heap level `applyH` driven with
-the transform as the table  array -> transform.apply(array)  measured on the real code, and for the homogeneous
-family also with the exact rational matrix).
+before and after, aliasing, write-through; batch_size invisible; a chain = its members one after the other;
+`apply(landmark_manager)`; histories of calls on objects that share textures / arrays / managers and on earlier
+results); the Lean model (value level `applyV`, heap level `applyH`, sequences `runH` / `runV`).
+
+What the model is given per case:
+* the shape as a tree (`enc_shape`): class, points, every other attribute — arrays and dicts of arrays by content,
+  object-valued attributes (tcoords PointCloud, texture Image with its own landmarks) as the token stream of their
+  deep digest (`toks_of` mirrors `MenpoModel.C02.digest`) — and the groups, recursively;
+* the transform either as a formula the model evaluates itself (homogeneous matrix incl. the alignment classes,
+  WithDims, chains of those: `exact_F`) or as the table  array -> transform.apply(array)  measured on the real code;
+  with batch_size the table holds the BATCHES and the model does the cutting and stacking (`applyBatched`);
+* for histories the heap itself, cell by cell, as the image of the real object graph (`HeapEmitter`: one cell per
+  Python object, so sharing is what it is in the interpreter).
+The reply carries the flags of the heap theorems' hypotheses (`rep`, `repd`, `tot`), the frame (`changed` = cells
+below the old heap top that differ), `intact` / `fresh` / `agree`, and the value-level result, which is diffed
+against the real result.
+
+Regenerated on every run (`generated`): method-resolution table, attribute-kind table, and the table of instance
+attributes `_transform_inplace` rebinds on the private copy (`measure_writes`, all 8 classes x every transform
+class), with `decide` obligations in GenProps/C02.lean.
 """
 import json
 
@@ -16,51 +33,72 @@ from .common import fq
 PROP = "C02"
 INFO = dict(
     technique="Lean 4 proof (value-level functional specification of apply for the 8 shape classes assembled from the "
-              "regenerated method-resolution table; heap-level refinement and frame theorem: the call only allocates, "
-              "the copy is a separated tree of fresh cells, the in-place pass rebinds `points` of fresh objects only) "
-              "+ regenerated dispatch / attribute-kind obligations + model/implementation correspondence and a "
-              "deep-digest oracle over shape class x landmark-group class x transform class",
-    level_text="Theorems over an executable model of Transform.apply / Transformable._transform / Shape._transform_inplace "
-               "/ PointCloud._transform_self_inplace / LandmarkManager._transform_inplace / Copyable.copy and its "
-               "LandmarkManager and LabelledPointUndirectedGraph overrides, each method looked up in the "
+              "regenerated method-resolution table, incl. batch_size, TransformChain, WithDims; heap-level refinement "
+              "and frame theorems over a representation predicate that fixes EVERY attribute of every object of the "
+              "tree by its deep digest; invariant over arbitrary sequences of calls on shared objects) "
+              "+ regenerated dispatch / attribute-kind / attribute-write obligations + model/implementation "
+              "correspondence and a deep-digest oracle over shape class x landmark-group class x transform class x "
+              "coordinate storage (dtype, layout, aliasing, previous lives)",
+    level_text="Theorems over an executable model of Transform.apply / _apply_batched / Transformable._transform / "
+               "Shape._transform_inplace / PointCloud._transform_self_inplace / LandmarkManager._transform_inplace / "
+               "Copyable.copy and its LandmarkManager and LabelledPointUndirectedGraph overrides / "
+               "TransformChain._apply / WithDims._apply / Homogeneous._apply, each method looked up in the "
                "method-resolution table exactly as Python resolves it.  Value level: for every shape of the 8 classes "
                "with landmark groups nested to any depth and every array function f, apply succeeds and returns the "
                "same class, points f(points), every group at every depth with points f(group points), all other "
                "attributes and the group names verbatim; it agrees with apply on the bare array; identity and "
-               "composition laws.  Heap level: for EVERY heap on which an address holds such a shape (arbitrary "
-               "layout and sharing), the heap after the call is the heap before plus new cells (nothing that existed "
-               "is written: input shape, landmark manager, groups, arrays, transform), the result is a new object "
-               "holding the mapped shape, and the input still holds what it held.  A kernel-checked witness shows that "
-               "with LandmarkManager.copy not overriding Copyable.copy the same call would write into the caller's "
+               "composition laws; with batch_size the same holds with f = _apply_batched(f, k), which equals f for "
+               "every transform that treats points one by one; a TransformChain applied to a shape equals its members "
+               "applied to the shape one after the other; WithDims slices the points of every group alike.  Heap "
+               "level: for EVERY heap on which an address holds such a shape (arbitrary layout and sharing; every "
+               "attribute - arrays, dicts of masks, the tcoords PointCloud, the texture Image with its own landmark "
+               "manager - fixed by its deep digest), the heap after the call is the heap before plus new cells "
+               "(nothing that existed is written: input shape, landmark manager, groups, arrays, textures, "
+               "transform), the result is a new object holding the mapped shape with every other attribute of every "
+               "object of the tree deep-equal to the input's, at every depth; the same for "
+               "transform.apply(landmark_manager); and as an invariant by induction over arbitrary sequences of calls "
+               "on initial objects that share whatever they share and on earlier results.  copy alone preserves the "
+               "deep digest of any value on any heap under any method-resolution table.  Kernel-checked witnesses show "
+               "that with LandmarkManager.copy not overriding Copyable.copy the same call would write into the caller's "
                "landmark groups; GenProps/C02.lean re-proves on every run that the live classes resolve the four "
-               "methods as the model assumes and that live objects have the attribute layout the heap model assumes.  "
-               "Tied to /repo by running every shape class (2-D, 3-D, 0-3 landmark groups of all 8 classes, nested "
-               "once) under every transform class and diffing against the Lean driver; an independent oracle decides "
-               "the property on the real code.",
+               "methods as the model assumes, that live objects have the attribute layout the heap model assumes, and "
+               "that the attributes the live _transform_inplace rebinds on the private copy (measured on all 8 classes "
+               "x every transform class) are exactly those the heap model rebinds, with no array buffer written in "
+               "place.  Tied to /repo by running every shape class (2-D, 3-D, 0-3 landmark groups of all 8 classes, "
+               "nested up to three deep; float64/float32/int64/int32 coordinates; C / Fortran / strided / read-only / "
+               "caller-owned arrays; groups aliased inside the manager or sharing the host's array; shapes that are "
+               "results of earlier transforms) under every transform class with and without batch_size and diffing "
+               "against the Lean driver, which cuts and stacks the batches itself and evaluates homogeneous matrices, "
+               "chains of them and WithDims exactly; an independent oracle decides the property on the real code.",
     level_note="Trusted: Lean kernel; axioms propext/Classical.choice/Quot.sound; Python harness and extractor; driver "
-               "parser.  Contract parameter (not verified, checked on every case by the oracle): a transform's "
-               "_apply is a function of the array it is given, returns a new array and writes neither into its "
-               "argument nor into the transform.  Modelled, not verified: CPython attribute lookup and dict iteration "
-               "order; numpy arrays as immutable-content cells that are only ever replaced; float rounding (points are "
-               "compared to the same float computation on the bare array, and for the homogeneous family to the exact "
-               "rational result within 1e-9).",
+               "parser.  Contract parameter (not verified, checked on every case by the oracle and on every run by the "
+               "regenerated write table): a transform's _apply is a function of the array it is given, returns a new "
+               "array and writes neither into its argument nor into the transform.  Modelled, not verified: CPython "
+               "attribute lookup and dict iteration order; numpy arrays as immutable-content cells that are only ever "
+               "replaced; float rounding (points are compared to the same float computation on the bare array, and for "
+               "the homogeneous family, chains of it and WithDims to the exact rational result within 1e-9).",
     rule="a case = one (shape, transform, batch_size) triple: shape class x n_dims x 0-3 landmark groups (each of one of "
-         "the 8 classes, possibly with groups of their own) x transform class with dyadic / rational-circle "
-         "parameters; distinct = distinct (shape class, group classes, transform class, dims, batch, parameters); "
-         "non-trivial = the transform moves at least one point and (the shape has a landmark group or structure "
-         "beyond points)",
-    partial=["'the transform is not modified' is a contract on _apply in the model (f is a pure function parameter); it is "
-             "decided on the real code by the deep digest of the transform before/after (the CachedPWA memo attributes "
-             "_applied_points/_iab are excluded: that the memo is unobservable is C09)",
-             "heap level: attributes that are themselves objects or dicts (tcoords PointCloud, texture Image, label-mask "
-             "dict contents) are covered by the value-level theorem and the correspondence only; their deep equality "
-             "after copy is C06's copy theorem",
+         "the 8 classes, possibly with groups of their own, up to depth 3) x coordinate storage x transform class "
+         "with dyadic / rational-circle parameters; distinct = distinct (shape class, group classes, transform class, "
+         "dims, batch, storage, parameters); non-trivial = the transform moves at least one point and (the shape has a "
+         "landmark group or structure beyond points)",
+    partial=["'the transform is not modified' is a contract on _apply in the model (f is a pure function parameter; the "
+             "heap theorems then show that NO existing cell is written, the transform's included); on the real code it "
+             "is decided by the deep digest of the transform before/after on every case and by the regenerated "
+             "obligation no_other_writes on every run (the CachedPWA memo attributes _applied_points/_iab are "
+             "excluded: that the memo is unobservable is C09)",
+             "heap level: success of the call (apply_succeeds) is proved for object graphs that are finite, of "
+             "classes the method-resolution table lists and within the fuel (Python: recursion limit); that the real "
+             "objects are such graphs is checked by the driver on every generated case (flag tot), not proved",
+             "batch_size <= 0 (ValueError from range / np.vstack) and WithDims with boolean masks, negative or "
+             "out-of-range indices (IndexError) are outside the documented domain and not modelled",
              "piecewise-affine transforms are exercised in their domain only (outside it apply raises by design)"],
     assumptions=["numpy computes the same floats for the same operation on equal arrays of equal shape (points of "
                  "apply(shape) are compared with apply(shape.points) at 1e-9 relative)"],
     design_ref="DESIGN.md section 6, C02")
 IMPORTS = ["MenpoModel.Props.C02"]
 THEOREMS = [
+    # value level (Props/C02Base.lean)
     "MenpoModel.C02.applyV_expected",
     "MenpoModel.C02.apply_class_preserved",
     "MenpoModel.C02.apply_points",
@@ -70,6 +108,7 @@ THEOREMS = [
     "MenpoModel.C02.apply_landmarks",
     "MenpoModel.C02.apply_id",
     "MenpoModel.C02.apply_comp",
+    # heap level over Rep (Props/C02Base.lean)
     "MenpoModel.C02.inplace_spec",
     "MenpoModel.C02.copy_spec",
     "MenpoModel.C02.apply_refines",
@@ -80,11 +119,52 @@ THEOREMS = [
     "MenpoModel.C02.apply_refines_checked",
     "MenpoModel.C02.shallow_manager_copy_mutates_input",
     "MenpoModel.C02.pass_self_leaves_points",
+    # heap level, every attribute by deep digest (Props/C02Deep.lean and its lemma files)
+    "MenpoModel.C02.digest_local",
+    "MenpoModel.C02.copy_deep",
+    "MenpoModel.C02.copy_keeps_digest",
+    "MenpoModel.C02.copy_specD",
+    "MenpoModel.C02.inplace_specD",
+    "MenpoModel.C02.repDB_sound",
+    "MenpoModel.C02.apply_refines_deep",
+    "MenpoModel.C02.apply_deep",
+    "MenpoModel.C02.apply_at_deep",
+    "MenpoModel.C02.apply_extras_deep",
+    "MenpoModel.C02.apply_manager_deep",
+    # history / aliasing (Props/C02Seq.lean)
+    "MenpoModel.C02.run_refines",
+    "MenpoModel.C02.run_mutates_nothing",
+    "MenpoModel.C02.runV_expected",
+    "MenpoModel.C02.allRepB_sound",
+    # batch_size, chains, WithDims (Props/C02Batch.lean)
+    "MenpoModel.C02.chunks_spec",
+    "MenpoModel.C02.batched_rowwise",
+    "MenpoModel.C02.apply_batched_expected",
+    "MenpoModel.C02.apply_batched_array_agrees",
+    "MenpoModel.C02.apply_batch_invariant",
+    "MenpoModel.C02.homApply_rowwise",
+    "MenpoModel.C02.withDims_rowwise",
+    "MenpoModel.C02.affine_eq_hom",
+    "MenpoModel.C02.affineApply_rowwise",
+    "MenpoModel.C02.chain_rowwise",
+    "MenpoModel.C02.apply_chain",
+    "MenpoModel.C02.withDims_width",
+    "MenpoModel.C02.withDims_range",
+    "MenpoModel.C02.apply_withDims_width",
+    # total correctness on the heap (Props/C02Total.lean)
+    "MenpoModel.C02.inplace_total",
+    "MenpoModel.C02.copy_total",
+    "MenpoModel.C02.knownToksB_sound",
+    "MenpoModel.C02.apply_succeeds",
+    # the write table (Props/C02Writes.lean)
+    "MenpoModel.C02.inplaceWrites_shape",
+    "MenpoModel.C02.inplace_writes_in_table",
+    "MenpoModel.C02.apply_writes_nothing_old",
 ]
 TOL = 1e-9
 SHAPES = extract_c02.SHAPES
 CACHE_ATTRS = {"_applied_points", "_iab"}      # CachedPWA memo (C09)
-FUEL = 12
+FUEL = 16
 
 
 # ------------------------------------------------------------------------------- specs -> real objects
@@ -148,7 +228,59 @@ def gen_shape_spec(rng, cls, d, depth, inside=None, n_groups=None):
             groups.append([nm, gen_shape_spec(rng, gcls, d, depth - 1, inside,
                                               n_groups=None if rng.random() < 0.5 else 0)])
     sp["groups"] = groups
+    # how the coordinates are stored (the constructors always make a fresh C-contiguous array; everything else
+    # arises through `copy=False`, through assignment to `.points`, or as the result of an earlier transform)
+    if inside is None and rng.random() < 0.3:
+        sp["store"] = gen_store(rng, sp)
+    # two names for ONE group object inside the manager (the copy made by apply must not transform it twice)
+    if groups and rng.random() < 0.08:
+        sp["alias"] = [[groups[0][0], "alias-of-" + groups[0][0]]]
+    # a PointCloud group that uses the host's coordinate array itself
+    pcs = [nm for nm, g in groups if g["cls"] == "PointCloud" and "store" not in g]
+    if pcs and "store" not in sp and rng.random() < 0.15:
+        sp["share_points"] = pcs[0]
     return sp
+
+
+STORE_DTYPES = ["float32", "int64", "int32", "float64"]
+STORE_LAYOUTS = ["C", "F", "strided", "readonly", "nocopy"]
+
+
+def gen_store(rng, sp):
+    """storage variant of sp['points']; integer dtypes get integral coordinates (kept distinct)"""
+    dtype = rng.choice(STORE_DTYPES)
+    layout = rng.choice(STORE_LAYOUTS if dtype != "float64" else STORE_LAYOUTS[1:])
+    if dtype.startswith("int"):
+        sp["points"] = integral_points(sp["points"])
+    return {"dtype": dtype, "layout": layout}
+
+
+def integral_points(points):
+    """the points rounded to integers, kept pairwise distinct"""
+    pts, seen = [], set()
+    for p in points:
+        q = [float(int(round(x))) for x in p]
+        while tuple(q) in seen:
+            q[0] += 1.0
+        seen.add(tuple(q))
+        pts.append(q)
+    return pts
+
+
+def stored(points, st):
+    """the ndarray for a storage variant"""
+    import numpy as np
+    a = np.array(points, dtype=st["dtype"])
+    lay = st["layout"]
+    if lay == "F":
+        a = np.asfortranarray(a)
+    elif lay == "strided":
+        big = np.zeros((2 * a.shape[0], a.shape[1] + 1), dtype=a.dtype)
+        big[::2, :-1] = a
+        a = big[::2, :-1]
+    elif lay == "readonly":
+        a.flags.writeable = False
+    return a
 
 
 def build_shape(sp):
@@ -156,11 +288,15 @@ def build_shape(sp):
     from collections import OrderedDict
     import menpo.shape as ms
     from menpo.image import Image
-    cls, pts = sp["cls"], np.array(sp["points"], dtype=float)
+    st = sp.get("store")
+    cls = sp["cls"]
+    pts = np.array(sp["points"], dtype=float) if st is None else np.array(sp["points"], dtype=st["dtype"])
+    if pts.ndim == 1:
+        pts = pts.reshape(0, sp.get("n_dims", 2))
     if cls == "PointCloud":
-        o = ms.PointCloud(pts)
+        o = ms.PointCloud(pts, copy=not (st and st["layout"] == "nocopy"))
     elif cls == "TriMesh":
-        o = ms.TriMesh(pts, trilist=np.array(sp["trilist"]))
+        o = ms.TriMesh(pts, trilist=np.array(sp["trilist"]), copy=not (st and st["layout"] == "nocopy"))
     elif cls == "ColouredTriMesh":
         o = ms.ColouredTriMesh(pts, trilist=np.array(sp["trilist"]), colours=np.array(sp["colours"]))
     elif cls == "TexturedTriMesh":
@@ -179,8 +315,22 @@ def build_shape(sp):
         o = ms.LabelledPointUndirectedGraph.init_from_edges(pts, np.array(sp["edges"]), masks)
     else:
         raise common.Infra("unknown shape class in spec: %r" % cls)
+    if st is not None and st["layout"] in ("F", "strided", "readonly"):
+        o.points = stored(sp["points"], st)          # public attribute; what a caller's own array looks like
     for nm, g in sp["groups"]:
         o.landmarks[nm] = build_shape(g)
+        gst = g.get("store")
+        if gst is not None and gst["layout"] in ("F", "strided", "readonly"):
+            # `landmarks[nm] = x` stores a copy (C-contiguous, writeable): give the stored group the layout again
+            o.landmarks[nm].points = stored(g["points"], gst)
+    for n1, n2 in sp.get("alias", []):
+        o.landmarks._landmark_groups[n2] = o.landmarks._landmark_groups[n1]
+    if sp.get("share_points"):
+        o.landmarks[sp["share_points"]].points = o.points
+    if sp.get("pre"):
+        # a previous life: the shape under test is itself the result of an earlier transform (its arrays are
+        # whatever that transform returned: views, other dtypes, other layouts)
+        o = build_transform(sp["pre"]).apply(o)
     return o
 
 
@@ -267,6 +417,10 @@ def gen_transform_spec(rng, kind, d):
     if kind == "TransformChain":
         ks = [rng.choice(HOMOG + ALIGN[:2]) for _ in range(rng.randint(2, 3))]
         return {"kind": kind, "members": [gen_transform_spec(rng, k, d) for k in ks]}
+    if kind == "ChainWithPWA":
+        # a piecewise-affine member inside a chain (TransformChain batches the way AbstractPWA does)
+        return {"kind": "TransformChain", "members": [gen_transform_spec(rng, "PiecewiseAffine", 2),
+                                                      gen_transform_spec(rng, "Affine", 2)]}
     if kind == "ChainWithTPS":
         return {"kind": "TransformChain", "members": [gen_transform_spec(rng, "Affine", 2),
                                                       gen_transform_spec(rng, "ThinPlateSplines", 2)]}
@@ -300,6 +454,14 @@ def build_transform(sp):
     raise common.Infra("unknown transform kind %r" % k)
 
 
+def pwa_domain(tsp):
+    """generator of points inside the source mesh when the transform is (or starts with) a piecewise affine one"""
+    pw = tsp if tsp["kind"] == "PiecewiseAffine" else None
+    if tsp["kind"] == "TransformChain" and tsp["members"] and tsp["members"][0]["kind"] == "PiecewiseAffine":
+        pw = tsp["members"][0]
+    return None if pw is None else pwa_inside(pw["mesh"], pw["trilist"])
+
+
 def pwa_inside(mesh_pts, trilist):
     import numpy as np
     mp = np.array(mesh_pts)
@@ -313,7 +475,7 @@ def pwa_inside(mesh_pts, trilist):
 
 
 KINDS_ND = HOMOG + ALIGN + ["TransformChain", "WithDims"]
-KINDS_2D = ["ThinPlateSplines", "PiecewiseAffine", "ChainWithTPS"]
+KINDS_2D = ["ThinPlateSplines", "PiecewiseAffine", "ChainWithTPS", "ChainWithPWA"]
 
 
 # ------------------------------------------------------------------------------- observation of real objects
@@ -354,9 +516,47 @@ def groups_of(o):
     return list(lm.__dict__["_landmark_groups"].items())
 
 
+MODEL_CLASSES = set(extract_c02.SHAPES) | {"LandmarkManager", "Image"}
+
+
+def toks_of(v, it):
+    """deep digest of a value as the token stream of the Lean model (`MenpoModel.C02.digest`): a list of tokens,
+    each a list of strings.  I <int> | A <arr> | D | F | O <class> | K <name> | C"""
+    import numpy as np
+    import scipy.sparse as sp
+    if v is None:
+        return [["I", "0"]]
+    if isinstance(v, (bool, np.bool_, int, np.integer)):
+        return [["I", str(int(v))]]
+    if isinstance(v, np.ndarray) and v.ndim >= 1:
+        a = v.astype(float)
+        return [["A"] + enc_arr(a.reshape(a.shape[0], -1).tolist() if a.size else [])]
+    if sp.issparse(v):
+        c = v.tocoo()
+        return [["A"] + enc_arr([list(map(float, t)) for t in sorted(zip(c.row.tolist(), c.col.tolist(), c.data.tolist()))])]
+    if isinstance(v, dict):
+        out = [["D"]]
+        for k, x in v.items():
+            out += [["K", it("k:" + str(k))]] + toks_of(x, it)
+        return out + [["C"]]
+    if isinstance(v, list):
+        out = [["D"]]
+        for i, x in enumerate(v):
+            out += [["K", "%d" % i]] + toks_of(x, it)
+        return out + [["C"]]
+    if hasattr(v, "__dict__") and not callable(v) and not isinstance(v, type):
+        name = type(v).__name__
+        out = [["O", name if name in MODEL_CLASSES else "other"]] if hasattr(v, "copy") else [["F"]]
+        for k, x in v.__dict__.items():
+            out += [["K", k]] + toks_of(x, it)
+        return out + [["C"]]
+    return [["I", str(1000 + int(it("imm:" + repr(v))[1:]))]]       # str, float, tuple, Path, function …
+
+
 def extras_of(o):
     """[(attribute, wire value)] for everything but points and landmarks, in __dict__ order; wire value =
-    ('i', int) | ('a', 2-D list) | ('d', [(key, 2-D list)])"""
+    ('i', int) | ('a', 2-D list) | ('d', [(key, 2-D list)]) | ('t', token stream) — the last for attributes that
+    are themselves objects (the tcoords PointCloud, the texture Image with its own landmarks) or dicts of them"""
     import numpy as np
     import scipy.sparse as sp
     out = []
@@ -373,20 +573,12 @@ def extras_of(o):
         elif sp.issparse(v):
             c = v.tocoo()
             out.append((k, ("a", [list(map(float, t)) for t in sorted(zip(c.row.tolist(), c.col.tolist(), c.data.tolist()))])))
-        elif isinstance(v, dict):
+        elif isinstance(v, dict) and all(isinstance(vv, np.ndarray) for vv in v.values()):
             out.append((k, ("d", [(kk, [[float(x) for x in np.asarray(vv).ravel()]]) for kk, vv in v.items()])))
-        elif isinstance(v, list):
+        elif isinstance(v, list) and all(x is None or isinstance(x, (int, float, np.integer)) for x in v):
             out.append((k, ("a", [[-1.0 if x is None else float(x) for x in v]])))
-        elif hasattr(v, "points"):        # tcoords PointCloud
-            out.append((k, ("a", v.points.tolist())))
-        elif hasattr(v, "pixels"):        # texture Image (+ its own landmarks, which must not move)
-            px = v.pixels.astype(float)
-            rows = px.reshape(px.shape[0], -1).tolist()
-            for _, g in groups_of(v):
-                rows.append([float(x) for x in g.points.ravel()] + [0.0] * (len(rows[0]) - g.points.size))
-            out.append((k, ("a", rows)))
         else:
-            out.append((k, ("d", [("unsupported_" + type(v).__name__, [[0.0]])])))
+            out.append((k, ("t", v)))
     return out
 
 
@@ -416,6 +608,9 @@ def enc_shape(o, it):
             toks += ["i", str(val)]
         elif tag == "a":
             toks += ["a"] + enc_arr(val)
+        elif tag == "t":
+            tt = toks_of(val, it)
+            toks += ["t", str(len(tt))] + [x for t in tt for x in t]
         else:
             toks += ["d", str(len(val))]
             for kk, vv in val:
@@ -482,7 +677,8 @@ def compare_tree(ctx, site, t_fresh, before, after, rp, path="root"):
                     "points-not-transformed" if path == "root" else "landmarks-not-moved",
                     "%s: points differ from transform.apply(points) (max abs diff %s)" % (
                         path, _maxdiff(after.points, want)), rp)
-    eb, ea = extras_of(before), extras_of(after)
+    it = Interner()
+    eb, ea = [[(k, (tag, toks_of(v, it) if tag == "t" else v)) for k, (tag, v) in extras_of(x)] for x in (before, after)]
     chk(ctx, eb == ea and digest({k: v for k, v in before.__dict__.items() if k not in ("points", "_landmarks")}) ==
                     digest({k: v for k, v in after.__dict__.items() if k not in ("points", "_landmarks")}),
                     site, "structure-changed",
@@ -515,7 +711,7 @@ def objects_of(o):
     return out
 
 
-def run_case(ctx, ssp, tsp, batch, lines=None, pending=None, count=True, shrink=True):
+def run_case(ctx, ssp, tsp, batch, lines=None, pending=None, count=True, shrink=True, manager=False):
     """oracle on the real code; optionally queue the model query.  Returns True when the oracle held."""
     import numpy as np
     kind = tsp["kind"]
@@ -525,6 +721,11 @@ def run_case(ctx, ssp, tsp, batch, lines=None, pending=None, count=True, shrink=
                  "transform); r = t.apply(s, batch_size=batch_size)  # then compare r with s, and s/t with fresh builds"}
     shape = build_shape(ssp)
     t = build_transform(tsp)
+    if tsp.get("warm"):
+        # a previous life of the transform: it has been applied to something else before (memos, lazily built state)
+        import numpy as _np
+        t.apply(_np.array(tsp["warm"], dtype=float))
+        ctx.count("transform-used-before") if count else None
     t_fresh = build_transform(tsp)
     d_shape = digest(shape)
     d_t = digest(t, skip=CACHE_ATTRS)
@@ -533,11 +734,22 @@ def run_case(ctx, ssp, tsp, batch, lines=None, pending=None, count=True, shrink=
         gcls = sorted({g["cls"] for _, g in ssp["groups"]})
         ctx.count("shape:" + ssp["cls"])
         ctx.count("transform:" + kind)
-        ctx.count("dims:%d" % len(ssp["points"][0]))
+        ctx.count("dims:%d" % spec_dims(ssp))
         ctx.count("groups:%d" % len(ssp["groups"]))
         for g in gcls:
             ctx.count("group-class:" + g)
         ctx.count("batch:" + ("none" if batch is None else "k"))
+        for node in spec_nodes(ssp):
+            if node.get("store"):
+                ctx.count("store-dtype:" + node["store"]["dtype"])
+                ctx.count("store-layout:" + node["store"]["layout"])
+            if node.get("alias"):
+                ctx.count("aliased-group")
+            if node.get("share_points"):
+                ctx.count("group-shares-host-array")
+        if ssp.get("pre"):
+            ctx.count("previous-life:" + ssp["pre"]["kind"])
+        ctx.count("depth:%d" % spec_depth(ssp))
     try:
         res = t.apply(shape, **kw)
     except Exception as e:
@@ -554,12 +766,66 @@ def run_case(ctx, ssp, tsp, batch, lines=None, pending=None, count=True, shrink=
         (len(ssp["groups"]) > 0 or ssp["cls"] != "PointCloud")
     ctx.case((ssp["cls"], kind, batch, json.dumps(ssp, sort_keys=True), json.dumps(tsp, sort_keys=True)),
              nontrivial=nontrivial,
-             sample={"shape": ssp["cls"], "dims": len(ssp["points"][0]), "groups": [[n, g["cls"], [m for m, _ in g["groups"]]]
+             sample={"shape": ssp["cls"], "dims": spec_dims(ssp), "groups": [[n, g["cls"], [m for m, _ in g["groups"]]]
                                                                                      for n, g in ssp["groups"]],
                      "transform": kind, "batch_size": batch})
+    with_manager = ok and bool(ssp["groups"]) and manager
+    if with_manager:
+        ctx.count("entry:apply(landmark_manager)")
+        try:
+            oracle_manager(ctx, rp, ssp, tsp, kw)
+        except _Stop:
+            ok = False
     if lines is not None and ok:
-        queue_model(ssp, tsp, kw, kind, t_fresh, lines, pending, rp)
+        queue_model(ssp, tsp, kw, kind, t_fresh, lines, pending, rp, manager=with_manager)
     return ok
+
+
+def oracle_manager(ctx, rp, ssp, tsp, kw):
+    """`transform.apply(shape.landmarks)`: the LandmarkManager is Transformable itself — a new manager whose groups
+    are the input's groups moved by the map; the input manager, its groups, the host shape and the transform intact"""
+    from menpo.landmark import LandmarkManager
+    site = "C02/apply/LandmarkManager"
+    rp = dict(rp, how="s = build_shape(shape); t = build_transform(transform); r = t.apply(s.landmarks, batch_size="
+                      "batch_size)  # then compare r's groups with s.landmarks, and s/t with fresh builds")
+    shape, t, t_fresh = build_shape(ssp), build_transform(tsp), build_transform(tsp)
+    lm = shape.landmarks
+    d0, dt = digest(shape), digest(t, skip=CACHE_ATTRS)
+    try:
+        res = t.apply(lm, **kw)
+    except Exception as e:
+        res = None
+        chk(ctx, False, site, "raises", "apply(landmark manager) raised %s: %s" % (type(e).__name__, str(e)[:120]), rp)
+    chk(ctx, type(res) is LandmarkManager and res is not lm, site, "class-changed",
+        "apply(landmark manager) returned %s%s" % (type(res).__name__, " (its argument)" if res is lm else ""), rp)
+    gb = groups_of(build_shape(ssp))
+    ga = list(res.__dict__["_landmark_groups"].items())
+    chk(ctx, [n for n, _ in gb] == [n for n, _ in ga], site, "groups-changed",
+        "landmark groups %r became %r" % ([n for n, _ in gb], [n for n, _ in ga]), rp)
+    for (n, b), (_, a) in zip(gb, ga):
+        compare_tree(ctx, site, t_fresh, b, a, rp, "manager/" + n)
+    chk(ctx, digest(shape) == d0, site, "input-mutated", "the manager (or its host shape) changed during apply", rp)
+    chk(ctx, digest(t, skip=CACHE_ATTRS) == dt, site, "transform-mutated", "the transform changed during apply", rp)
+    mine = {id(x) for x in objects_of(shape)}
+    shared = [type(x).__name__ for _, g in ga for x in objects_of(g) if id(x) in mine]
+    chk(ctx, not shared and id(res.__dict__["_landmark_groups"]) not in mine, site, "shares-objects",
+        "the returned manager shares %r with the input" % (shared[:4] or "its group dict"), rp)
+
+
+def spec_nodes(sp):
+    out = [sp]
+    for _, g in sp["groups"]:
+        out += spec_nodes(g)
+    return out
+
+
+def spec_dims(sp):
+    return len(sp["points"][0]) if sp["points"] else sp.get("n_dims", 2)
+
+
+def spec_depth(sp):
+    """nesting depth of the landmark groups (0 = no groups)"""
+    return 1 + max(spec_depth(g) for _, g in sp["groups"]) if sp["groups"] else 0
 
 
 def first_failure(ssp, tsp, batch):
@@ -651,11 +917,28 @@ def oracle(ctx, site, rp, ssp, tsp, kw, shape, t, t_fresh, res, d_shape, d_t):
     chk(ctx, arr.tobytes() == arr_bytes, site, "array-argument-written", "apply(array) wrote into its argument", rp)
     chk(ctx, not np.shares_memory(on_arr, arr), site, "array-aliased", "apply(array) returned memory of its argument", rp)
     # homogeneous family: the numbers against exact rational arithmetic
-    if kind in HOMOG:
+    if kind in HOMOG + ALIGN:
         hm = np.array(t_fresh.h_matrix)
-        want = [[float(x) for x in row] for row in hom_exact(hm.tolist(), ssp["points"])]
+        want = np.array([[float(x) for x in row] for row in hom_exact(hm.tolist(), build_shape(ssp).points.tolist())],
+                        dtype=float).reshape(-1, hm.shape[0] - 1)
         chk(ctx, arr_close(res.points, want), site, "points-wrong",
             "points differ from the exact image under h_matrix (max abs diff %s)" % _maxdiff(res.points, want), rp)
+    # batching is invisible (every transform treats each point on its own): shape, landmarks at every depth
+    if kw:
+        plain = build_transform(tsp).apply(build_shape(ssp))
+        for x, y in zip(all_arrays(res), all_arrays(plain)):
+            chk(ctx, arr_close(x, y), site, "batched-differs",
+                "apply(shape, batch_size=%r) differs from apply(shape) (max abs diff %s)" % (
+                    kw["batch_size"], _maxdiff(x, y)), rp)
+    # a chain applied to the shape = its members applied to the shape one after the other
+    if kind == "TransformChain":
+        seq = build_shape(ssp)
+        for m in build_transform(tsp).transforms:
+            seq = m.apply(seq)
+        ok_seq = len(all_arrays(seq)) == len(all_arrays(res)) and \
+            all(arr_close(x, y) for x, y in zip(all_arrays(res), all_arrays(seq)))
+        chk(ctx, ok_seq, site, "chain-not-sequential",
+            "TransformChain.apply(shape) differs from applying the members one after the other", rp)
     # (d) nothing mutated
     chk(ctx, digest(shape) == d_shape, site, "input-mutated",
         "the input shape (or its landmarks) changed during apply: %s" % _first_diff(build_shape(ssp), shape), rp)
@@ -670,7 +953,7 @@ def oracle(ctx, site, rp, ssp, tsp, kw, shape, t, t_fresh, res, d_shape, d_t):
         "a points array of the result shares memory with the input", rp)
     for x in out_arrays:
         if x.flags.writeable:
-            x += 1.0
+            x += 1
     for x in objects_of(res):
         if isinstance(x, dict):
             x["__verif__"] = None
@@ -678,31 +961,69 @@ def oracle(ctx, site, rp, ssp, tsp, kw, shape, t, t_fresh, res, d_shape, d_t):
     return on_arr
 
 
-def queue_model(ssp, tsp, kw, kind, t_fresh, lines, pending, rp):
+def chunks_of(a, k):
+    return [a[lo:lo + k] for lo in range(0, a.shape[0], k)]
+
+
+def exact_F(tsp, t):
+    """the transform as a formula the Lean model evaluates itself (None when it is not plumbing + h_matrix)"""
     import numpy as np
-    # the transform as the table of what the real code does to each bare array
+    k = tsp["kind"]
+    if k in HOMOG + ALIGN:
+        # the formula the live class runs: Homogeneous._apply or Affine._apply (affine_eq_hom: the same function)
+        sup = extract_c02.supplier(type(t), "_apply")
+        kindF = {"Homogeneous": "hom", "Affine": "aff"}.get(sup.__name__ if sup else None)
+        if kindF is None:
+            return None
+        return [kindF] + enc_arr(np.array(t.h_matrix).tolist())
+    if k == "WithDims" and all(isinstance(j, int) and j >= 0 for j in tsp["dims"]):
+        return ["dims", str(len(tsp["dims"]))] + [str(j) for j in tsp["dims"]]
+    if k == "TransformChain":
+        ms = [exact_F(m, tm) for m, tm in zip(tsp["members"], t.transforms)]
+        if all(m is not None for m in ms):
+            return ["chain", str(len(ms))] + [x for m in ms for x in m]
+    return None
+
+
+def queue_model(ssp, tsp, kw, kind, t_fresh, lines, pending, rp, manager=False):
+    import numpy as np
+    batch = kw.get("batch_size")
     it = Interner()
     fresh_in = build_shape(ssp)
     res2 = build_transform(tsp).apply(build_shape(ssp), **kw)
+    # the transform as the table of what the real code does to each array it is handed: whole arrays without
+    # batch_size, the batches x[lo:lo+k] with it (the model does the cutting and stacking itself, `applyBatched`)
     tab, seen = [], set()
     for a in all_arrays(fresh_in):
-        key = a.tobytes() + bytes(a.shape)
-        if key in seen:
-            continue
-        seen.add(key)
-        tab.append((a.tolist(), build_transform(tsp).apply(a.copy(), **kw).tolist()))
+        pieces = [a] if (batch is None or a.shape[0] == 0) else chunks_of(a, batch)
+        for c in pieces:
+            key = c.tobytes() + bytes(c.shape)
+            if key in seen:
+                continue
+            seen.add(key)
+            tab.append((np.asarray(c, dtype=float).tolist(), np.asarray(build_transform(tsp).apply(np.array(c)), dtype=float).tolist()))
     ftoks = ["tab", str(len(tab))]
     for a, b in tab:
         ftoks += enc_arr(a) + enc_arr(b)
     stoks = enc_shape(fresh_in, it)
+    btok = "0" if batch is None else str(batch)
     cid = "m%d" % len(lines)
-    lines.append("%s apply %d %s %s" % (cid, FUEL, " ".join(ftoks), " ".join(stoks)))
+    lines.append("%s applyb %d %s %s %s" % (cid, FUEL, btok, " ".join(ftoks), " ".join(stoks)))
     pending[cid] = ("apply-tab", enc_shape(res2, it), rp)
-    if kind in HOMOG:
-        hm = np.array(t_fresh.h_matrix).tolist()
+    ex = exact_F(tsp, t_fresh)
+    if ex is not None:
         cid = "h%d" % len(lines)
-        lines.append("%s apply %d hom %s %s" % (cid, FUEL, " ".join(enc_arr(hm)), " ".join(stoks)))
-        pending[cid] = ("apply-hom", enc_shape(res2, it), rp)
+        lines.append("%s applyb %d %s %s %s" % (cid, FUEL, btok, " ".join(ex), " ".join(stoks)))
+        pending[cid] = ("apply-" + ex[0], enc_shape(res2, it), rp)
+    if manager and groups_of(fresh_in):
+        resm = build_transform(tsp).apply(build_shape(ssp).landmarks, **kw)
+        gs = list(resm.__dict__["_landmark_groups"].items())
+        gtoks = [str(len(gs))]
+        for nm, g in gs:
+            gtoks += [it(nm)] + enc_shape(g, it)
+        cid = "g%d" % len(lines)
+        lines.append("%s applym %d %s %s %s" % (cid, FUEL, btok, " ".join(ex if ex is not None else ftoks), " ".join(stoks)))
+        pending[cid] = ("apply-manager", gtoks, rp)
 
 
 def _first_diff(a, b, path="root"):
@@ -746,16 +1067,35 @@ def check_model(ctx, lines, pending):
     for cid, (op, impl_toks, rp) in pending.items():
         reply = model[cid].split()
         ctx.count("model:" + op)
-        if len(reply) < 6 or reply[0] != "ok":
+        if op == "run-history":
+            if len(reply) < 5 or reply[0] != "ok":
+                ctx.mismatch(op, "model answered %r" % " ".join(reply[:8]), rp)
+                continue
+            flags = dict(x.split("=") for x in reply[1:5])
+            if flags != {"rep": "1", "changed": "0", "repafter": "1", "fresh": "1"}:
+                ctx.mismatch(op, "model flags %r (rep: the heap image of the real objects satisfies the hypothesis of "
+                                 "run_refines; changed: cells written below the old heap top; repafter: all objects hold "
+                                 "the value-level shapes afterwards, deep)" % flags, rp)
+                continue
+            ok, why = tokens_agree(reply[5:], impl_toks)
+            if not ok:
+                ctx.mismatch(op, "results of the model differ from the implementation: " + why, rp)
+            continue
+        nflags = 4 if op == "apply-manager" else 7
+        if len(reply) < nflags + 1 or reply[0] != "ok":
             ctx.mismatch(op, "model answered %r" % " ".join(reply[:8]), rp)
             continue
-        flags = dict(x.split("=") for x in reply[1:6])
-        if flags != {"rep": "1", "changed": "0", "intact": "1", "fresh": "1", "agree": "1"}:
+        flags = dict(x.split("=") for x in reply[1:nflags + 1])
+        want = {"changed": "0", "intact": "1", "fresh": "1", "agree": "1"}
+        if op != "apply-manager":
+            want.update({"rep": "1", "repd": "1", "tot": "1"})
+        if flags != want:
             # the case lies outside the theorems' hypothesis or the heap model disagrees with the value model
-            ctx.mismatch(op, "model flags %r (rep: hypothesis of the heap theorems; changed: cells written below the "
-                             "old heap top; agree: heap result = value result)" % flags, rp)
+            ctx.mismatch(op, "model flags %r (rep / repd: hypothesis of the heap theorems, shallow / every attribute "
+                             "by deep digest; tot: hypothesis of apply_succeeds; changed: cells written below the old heap top; intact: the input reads "
+                             "back, deep; agree: heap result = value result, deep)" % flags, rp)
             continue
-        ok, why = tokens_agree(reply[6:], impl_toks)
+        ok, why = tokens_agree(reply[nflags + 1:], impl_toks)
         if not ok:
             ctx.mismatch(op, "result of the model differs from the implementation: " + why, rp)
 
@@ -767,10 +1107,13 @@ def draw_case(rng, cls, kind, d):
     if kind in KINDS_2D:
         d = 2
     tsp = gen_transform_spec(rng, kind, d)
-    inside = None
-    if tsp["kind"] == "PiecewiseAffine":
-        inside = pwa_inside(tsp["mesh"], tsp["trilist"])
-    ssp = gen_shape_spec(rng, cls, d, 2, inside)
+    inside = pwa_domain(tsp)
+    ssp = gen_shape_spec(rng, cls, d, 3 if rng.random() < 0.15 else 2, inside)
+    if rng.random() < 0.25:
+        tsp["warm"] = gen_points(rng, rng.randint(1, 4), d, inside)
+    if inside is None and rng.random() < 0.12:
+        # previous life: the shape under test is the result of an earlier transform of the same dimension
+        ssp["pre"] = gen_transform_spec(rng, rng.choice(["Homogeneous", "Affine", "Rotation", "NonUniformScale"]), d)
     n = len(ssp["points"])
     batch = rng.choice([None, None, None, 1, 2, 3, n, n + 2])
     return ssp, tsp, batch
@@ -784,7 +1127,8 @@ def explore(ctx, rounds, lines, pending, model_share=1.0):
                 for kind in KINDS_ND + (KINDS_2D if d == 2 else []):
                     ssp, tsp, batch = draw_case(rng, cls, kind, d)
                     use_model = lines is not None and rng.random() < model_share
-                    run_case(ctx, ssp, tsp, batch, lines if use_model else None, pending)
+                    run_case(ctx, ssp, tsp, batch, lines if use_model else None, pending,
+                             manager=rng.random() < 0.25)
 
 
 def directed(ctx, lines, pending):
@@ -796,11 +1140,51 @@ def directed(ctx, lines, pending):
             # every group class under this shape class, nested groups inside
             ssp = gen_shape_spec(rng, cls, d, 0)
             ssp["groups"] = [["g%d" % i, gen_shape_spec(rng, g, d, 1, n_groups=1)] for i, g in enumerate(SHAPES)]
-            run_case(ctx, ssp, gen_transform_spec(rng, "Affine", d), None, lines, pending)
+            for node in spec_nodes(ssp):
+                for key in ("store", "alias", "share_points"):
+                    node.pop(key, None)
+            run_case(ctx, ssp, gen_transform_spec(rng, "Affine", d), None, lines, pending, manager=True)
             # no groups at all, identity-like transforms
             ssp = gen_shape_spec(rng, cls, d, 0)
             run_case(ctx, ssp, {"kind": "Translation", "t": [0.0] * d}, None, lines, pending)
             run_case(ctx, ssp, {"kind": "UniformScale", "s": 1.0, "d": d}, 2, lines, pending)
+    # storage of the coordinates: every dtype and every layout under every shape class, on the host and on a
+    # group; then the same shapes in a second life (result of an earlier transform), and aliasing inside the manager
+    combos = [(dt, STORE_LAYOUTS[i % len(STORE_LAYOUTS)]) for i, dt in enumerate(STORE_DTYPES)] + \
+             [(STORE_DTYPES[i % len(STORE_DTYPES)], lay) for i, lay in enumerate(STORE_LAYOUTS)]
+    kinds = ["Translation", "Affine", "WithDims", "UniformScale", "Rotation", "TransformChain", "NonUniformScale",
+             "Similarity", "AlignmentAffine"]
+    for ci, cls in enumerate(SHAPES):
+        for j, (dt, lay) in enumerate(combos):
+            d = 2 + (ci + j) % 2
+            ssp = gen_shape_spec(rng, cls, d, 0)
+            g = gen_shape_spec(rng, SHAPES[(ci + j) % len(SHAPES)], d, 0)
+            g2 = gen_shape_spec(rng, "PointCloud", d, 0)
+            for node in (ssp, g, g2):
+                node["store"] = {"dtype": dt, "layout": lay}
+                if dt.startswith("int"):
+                    node["points"] = integral_points(node["points"])
+            g["groups"] = [["deep", g2]]
+            ssp["groups"] = [["g", g]]
+            kind = kinds[(ci + j) % len(kinds)]
+            batch = [None, 2, None, 3][(ci + j) % 4]
+            run_case(ctx, ssp, gen_transform_spec(rng, kind, d), batch, lines, pending, manager=(j % 3 == 0))
+        for d in (2, 3):
+            ssp = gen_shape_spec(rng, cls, d, 2, n_groups=2)
+            for node in spec_nodes(ssp):
+                for key in ("store", "alias", "share_points"):
+                    node.pop(key, None)
+            ssp["pre"] = gen_transform_spec(rng, ["Homogeneous", "Affine"][d % 2], d)
+            run_case(ctx, ssp, gen_transform_spec(rng, kinds[(ci + d) % len(kinds)], d), [None, 2][d % 2], lines, pending)
+            ssp = gen_shape_spec(rng, cls, d, 1, n_groups=2)
+            for node in spec_nodes(ssp):
+                for key in ("store", "alias", "share_points"):
+                    node.pop(key, None)
+            ssp["alias"] = [[ssp["groups"][0][0], "alias-of-" + ssp["groups"][0][0]]]
+            ssp["groups"].append(["shared-array", {"cls": "PointCloud", "points": gen_points(rng, 3, d), "groups": []}])
+            ssp["share_points"] = "shared-array"
+            run_case(ctx, ssp, gen_transform_spec(rng, kinds[(ci + d + 3) % len(kinds)], d), None, lines, pending,
+                     manager=True)
     # a shape whose landmark manager exists but is empty
     import numpy as np
     from menpo.shape import PointCloud
@@ -818,6 +1202,18 @@ def directed(ctx, lines, pending):
     except Exception as e:
         ctx.fail(site, "raises", "empty landmark manager: apply raised %s" % type(e).__name__, rp)
     ctx.case(("empty-manager",), nontrivial=True)
+    # zero-point point clouds carrying (nested) groups, through the model as well, with and without batch_size
+    for d in (2, 3):
+        for kind in ("Translation", "Affine", "WithDims", "TransformChain"):
+            for batch in (None, 2):
+                g = gen_shape_spec(rng, rng.choice(SHAPES), d, 1, n_groups=1)
+                for node in spec_nodes(g):
+                    for key in ("store", "alias", "share_points"):
+                        node.pop(key, None)
+                empty = {"cls": "PointCloud", "points": [], "n_dims": d, "groups": []}
+                ssp = {"cls": "PointCloud", "points": [], "n_dims": d, "groups": [["g", g], ["also-empty", empty]]}
+                ctx.count("zero-point-host:spec")
+                run_case(ctx, ssp, gen_transform_spec(rng, kind, d), batch, lines, pending, manager=True)
     # boundary size: a host with ZERO points that still carries landmark groups (legal: an annotated but empty
     # template); the groups must move with the map exactly as on any other host
     import menpo.shape as ms
@@ -853,16 +1249,368 @@ def directed(ctx, lines, pending):
                     ctx.fail(site, "raises", "zero-point host: apply raised %s: %s" % (type(e).__name__, e), rp)
 
 
+# ------------------------------------------------------------------------------- histories on shared objects
+
+SCENARIOS = ["independent", "shared-texture", "shared-array", "shared-manager"]
+RUN_KINDS = HOMOG + ALIGN + ["TransformChain"]
+
+
+def gen_run_spec(rng, scenario, d):
+    """a few shapes that share what the scenario says, and a sequence of calls on them or on earlier results"""
+    def plain(cls, depth=1):
+        sp = gen_shape_spec(rng, cls, d, depth)
+        for node in spec_nodes(sp):
+            for key in ("store", "alias", "share_points"):
+                node.pop(key, None)
+        return sp
+    if scenario == "shared-texture":
+        shapes = [plain("TexturedTriMesh"), plain("TexturedTriMesh", 0)]
+    elif scenario == "shared-array":
+        a = plain("PointCloud")
+        b = plain(rng.choice(["PointCloud", "TriMesh"]), 0)
+        b["points"] = a["points"]
+        if b["cls"] == "TriMesh":
+            b["trilist"] = [rng.sample(range(len(a["points"])), 3)]
+        a["groups"].append(["same-array", {"cls": "PointCloud", "points": a["points"], "groups": []}])
+        shapes = [a, b]
+    elif scenario == "shared-manager":
+        a = plain(rng.choice(SHAPES), 2)
+        if not a["groups"]:
+            a["groups"] = [["g", plain("PointCloud", 0)]]
+        shapes = [a, plain(rng.choice(SHAPES), 0)]
+    else:
+        shapes = [plain(rng.choice(SHAPES), 2), plain(rng.choice(SHAPES))]
+    kinds = RUN_KINDS + (["ThinPlateSplines"] if d == 2 else [])
+    calls, n = [], len(shapes)
+    for i in range(rng.randint(3, 5)):
+        calls.append({"t": gen_transform_spec(rng, rng.choice(kinds), d), "batch": rng.choice([None, None, 2, 3]),
+                      "src": rng.randrange(n + i)})
+    return {"scenario": scenario, "shapes": shapes, "calls": calls}
+
+
+def build_env(spec):
+    """the real objects of a run spec, sharing what the scenario says"""
+    import numpy as np
+    import menpo.shape as ms
+    from menpo.image import Image
+    sc, sps = spec["scenario"], spec["shapes"]
+    if sc == "shared-texture":
+        # two textured meshes built with copy=False on ONE texture Image (public constructor flag)
+        tex = Image(np.array(sps[0]["texture"], dtype=float))
+        if sps[0].get("texture_landmarks"):
+            tex.landmarks["t"] = ms.PointCloud(np.array(sps[0]["texture_landmarks"]))
+        env = []
+        for sp in sps:
+            o = ms.TexturedTriMesh(np.array(sp["points"], dtype=float), np.array(sp["tcoords"], dtype=float), tex,
+                                   trilist=np.array(sp["trilist"]), copy=False)
+            for nm, g in sp["groups"]:
+                o.landmarks[nm] = build_shape(g)
+            env.append(o)
+        return env
+    if sc == "shared-array":
+        # two shapes built with copy=False on ONE coordinate array, a group of the first using it as well
+        arr = np.array(sps[0]["points"], dtype=float)
+        a = ms.PointCloud(arr, copy=False)
+        for nm, g in sps[0]["groups"]:
+            a.landmarks[nm] = build_shape(g)
+        a.landmarks["same-array"].points = arr
+        if sps[1]["cls"] == "TriMesh":
+            b = ms.TriMesh(arr, trilist=np.array(sps[1]["trilist"]), copy=False)
+        else:
+            b = ms.PointCloud(arr, copy=False)
+        return [a, b]
+    env = [build_shape(sp) for sp in sps]
+    if sc == "shared-manager":
+        # ONE LandmarkManager object under two hosts (not reachable through the public setter, which copies;
+        # it is what unpickled or hand-assembled objects can look like)
+        env[1]._landmarks = env[0]._landmarks
+    return env
+
+
+class HeapEmitter:
+    """the real object graph as cells of the Lean heap model, one cell per Python object (sharing preserved)"""
+
+    def __init__(self, it):
+        self.it, self.cells, self.addr, self.keep = it, [], {}, []
+
+    def alloc(self, obj, toks):
+        self.cells.append(toks)
+        if obj is not None:
+            self.addr[id(obj)] = len(self.cells) - 1
+            self.keep.append(obj)
+        return ["r", str(len(self.cells) - 1)]
+
+    def slots(self, items):
+        out = [str(len(items))]
+        for k, v in items:
+            out += [k] + v
+        return out
+
+    def deep(self, v):
+        """a value inside an object-valued attribute: mirrors toks_of"""
+        import numpy as np
+        import scipy.sparse as sp
+        if v is None:
+            return ["i", "0"]
+        if isinstance(v, (bool, np.bool_, int, np.integer)):
+            return ["i", str(int(v))]
+        if id(v) in self.addr:
+            return ["r", str(self.addr[id(v)])]
+        if isinstance(v, np.ndarray) and v.ndim >= 1:
+            a = v.astype(float)
+            return self.alloc(v, ["A"] + enc_arr(a.reshape(a.shape[0], -1).tolist() if a.size else []))
+        if sp.issparse(v):
+            c = v.tocoo()
+            return self.alloc(v, ["A"] + enc_arr([list(map(float, t)) for t in
+                                                  sorted(zip(c.row.tolist(), c.col.tolist(), c.data.tolist()))]))
+        if isinstance(v, dict):
+            return self.alloc(v, ["D"] + self.slots([(self.it("k:" + str(k)), self.deep(x)) for k, x in v.items()]))
+        if isinstance(v, list):
+            return self.alloc(v, ["D"] + self.slots([("%d" % i, self.deep(x)) for i, x in enumerate(v)]))
+        if hasattr(v, "__dict__") and not callable(v) and not isinstance(v, type):
+            items = [(k, self.deep(x)) for k, x in v.__dict__.items()]
+            name = type(v).__name__
+            head = ["O", name if name in MODEL_CLASSES else "other"] if hasattr(v, "copy") else ["F"]
+            return self.alloc(v, head + self.slots(items))
+        return ["i", str(1000 + int(self.it("imm:" + repr(v))[1:]))]
+
+    def shape(self, o):
+        """a shape object of a tree: mirrors enc_shape / extras_of"""
+        import numpy as np
+        if id(o) in self.addr:
+            return ["r", str(self.addr[id(o)])]
+        wire = dict(extras_of(o))
+        items = []
+        for k, v in o.__dict__.items():
+            if k == "_landmarks":
+                if v is None:
+                    items.append((k, ["i", "0"]))
+                elif id(v) in self.addr:
+                    items.append((k, ["r", str(self.addr[id(v)])]))
+                else:
+                    gd = v.__dict__["_landmark_groups"]
+                    gv = [(self.it(nm), self.shape(g)) for nm, g in gd.items()]
+                    dref = self.alloc(gd, ["D"] + self.slots(gv))
+                    items.append((k, self.alloc(v, ["O", "LandmarkManager"] + self.slots([("_landmark_groups", dref)]))))
+            elif k == "points":
+                if id(v) in self.addr:
+                    items.append((k, ["r", str(self.addr[id(v)])]))
+                else:
+                    items.append((k, self.alloc(v, ["A"] + enc_arr(v.tolist()))))
+            else:
+                tag, val = wire[k]
+                if tag == "i":
+                    items.append((k, ["i", str(val)]))
+                elif tag == "a":
+                    items.append((k, ["r", str(self.addr[id(v)])] if id(v) in self.addr else
+                                  self.alloc(v, ["A"] + enc_arr(val))))
+                elif tag == "d":
+                    if id(v) in self.addr:
+                        items.append((k, ["r", str(self.addr[id(v)])]))
+                    else:
+                        ms_ = [(self.it(kk), self.alloc(v[kk], ["A"] + enc_arr(vv))) for kk, vv in val]
+                        items.append((k, self.alloc(v, ["D"] + self.slots(ms_))))
+                else:
+                    items.append((k, self.deep(v)))
+        return self.alloc(o, ["O", type(o).__name__] + self.slots(items))
+
+
+def run_sequence(ctx, spec, lines=None, pending=None):
+    """oracle (and optionally the model query) for a sequence of calls on shared objects and earlier results"""
+    import numpy as np
+    site = "C02/history/" + spec["scenario"]
+    rp = {"run": spec, "how": "from harness.c02 import build_env, build_transform; objs = build_env(run); for c in "
+                              "run['calls']: objs.append(build_transform(c['t']).apply(objs[c['src']], batch_size="
+                              "c['batch']))  # every earlier object must keep its deep digest"}
+    ctx.count("history:" + spec["scenario"])
+    ctx.case(("history", json.dumps(spec, sort_keys=True)), nontrivial=True,
+             sample={"history": spec["scenario"], "shapes": [sp["cls"] for sp in spec["shapes"]],
+                     "calls": [[c["t"]["kind"], c["batch"], c["src"]] for c in spec["calls"]]})
+    env = build_env(spec)
+    objs = list(env)
+    born = [digest(o) for o in objs]
+    try:
+        for ci, c in enumerate(spec["calls"]):
+            t, t_fresh = build_transform(c["t"]), build_transform(c["t"])
+            kw = {} if c["batch"] is None else {"batch_size": c["batch"]}
+            src = objs[c["src"]]
+            try:
+                r = t.apply(src, **kw)
+            except Exception as e:
+                r = None
+                chk(ctx, False, site, "raises", "call %d raised %s: %s" % (ci, type(e).__name__, str(e)[:100]), rp)
+            for k, o in enumerate(objs):
+                chk(ctx, digest(o) == born[k], site, "earlier-object-mutated",
+                    "call %d (%s on object %d) changed object %d%s" % (
+                        ci, c["t"]["kind"], c["src"], k, " (an initial object)" if k < len(env) else " (an earlier result)"), rp)
+            compare_tree(ctx, site, t_fresh, src, r, rp, "call%d" % ci)
+            old = {id(x) for o in objs for x in objects_of(o)}
+            sh = [type(x).__name__ for x in objects_of(r) if id(x) in old]
+            chk(ctx, not sh, site, "shares-objects", "result of call %d shares %r with an earlier object" % (ci, sh[:4]), rp)
+            old_arr = [a for o in objs for a in reachable_arrays(o)]
+            chk(ctx, not any(np.shares_memory(x, y) for x in all_arrays(r) for y in old_arr), site, "shares-points",
+                "a points array of the result of call %d shares memory with an earlier object" % ci, rp)
+            objs.append(r)
+            born.append(digest(r))
+    except _Stop:
+        return False
+    if lines is None:
+        return True
+    # the model: the heap is the image of the real initial object graph, the calls as tables / formulas
+    it = Interner()
+    env2 = build_env(spec)
+    em = HeapEmitter(it)
+    refs = [em.shape(o) for o in env2]
+    htoks = [str(len(em.cells))] + [x for c in em.cells for x in c]
+    etoks = [str(len(env2))]
+    for r_, o in zip(refs, env2):
+        etoks += [r_[1]] + enc_shape(o, it)
+    objs2 = list(env2)
+    ctoks = [str(len(spec["calls"]))]
+    # formulas only when every call has one: a table is keyed by the floats the real code saw, which an exact
+    # earlier result of the model would miss by an ulp
+    all_exact = all(exact_F(c["t"], build_transform(c["t"])) is not None for c in spec["calls"])
+    ctx.count("model:run-" + ("formulas" if all_exact else "tables"))
+    for c in spec["calls"]:
+        t = build_transform(c["t"])
+        kw = {} if c["batch"] is None else {"batch_size": c["batch"]}
+        src = objs2[c["src"]]
+        ex = exact_F(c["t"], t) if all_exact else None
+        if ex is None:
+            tab, seen = [], set()
+            for a in all_arrays(src):
+                pieces = [a] if (c["batch"] is None or a.shape[0] == 0) else chunks_of(a, c["batch"])
+                for pc in pieces:
+                    key = pc.tobytes() + bytes(pc.shape)
+                    if key not in seen:
+                        seen.add(key)
+                        tab.append((np.asarray(pc, dtype=float).tolist(),
+                                    np.asarray(build_transform(c["t"]).apply(np.array(pc)), dtype=float).tolist()))
+            ex = ["tab", str(len(tab))]
+            for a, b in tab:
+                ex += enc_arr(a) + enc_arr(b)
+        ctoks += ["0" if c["batch"] is None else str(c["batch"])] + ex + [str(c["src"])]
+        objs2.append(t.apply(src, **kw))
+    rtoks = [str(len(spec["calls"]))]
+    for o in objs2[len(env2):]:
+        rtoks += enc_shape(o, it)
+    cid = "r%d" % len(lines)
+    lines.append("%s run %d %s %s %s" % (cid, FUEL, " ".join(htoks), " ".join(etoks), " ".join(ctoks)))
+    pending[cid] = ("run-history", rtoks, rp)
+    return True
+
+
+def histories(ctx, n_per_scenario, lines, pending):
+    rng = ctx.rng
+    for sc in SCENARIOS:
+        for i in range(n_per_scenario):
+            run_sequence(ctx, gen_run_spec(rng, sc, 2 + i % 2), lines, pending)
+
+
+def tree_objects(o, path="root"):
+    """[(path, object)] of the tree the in-place pass walks: shape, its manager, the group dict, the groups …"""
+    out = [(path, o)]
+    lm = o.__dict__.get("_landmarks")
+    if lm is not None:
+        out.append((path + "._landmarks", lm))
+        out.append((path + "._landmarks._landmark_groups", lm.__dict__["_landmark_groups"]))
+        for nm, g in lm.__dict__["_landmark_groups"].items():
+            out += tree_objects(g, path + "/" + nm)
+    return out
+
+
+def reachable_arrays(o, seen=None, out=None, depth=0):
+    """every ndarray reachable from `o` (through attributes, dicts, lists), once each"""
+    import numpy as np
+    seen = set() if seen is None else seen
+    out = [] if out is None else out
+    if id(o) in seen or depth > 10:
+        return out
+    seen.add(id(o))
+    if isinstance(o, np.ndarray):
+        out.append(o)
+    elif isinstance(o, dict):
+        for v in o.values():
+            reachable_arrays(v, seen, out, depth + 1)
+    elif isinstance(o, (list, tuple)):
+        for v in o:
+            reachable_arrays(v, seen, out, depth + 1)
+    elif hasattr(o, "__dict__") and not callable(o) and not isinstance(o, type):
+        for v in o.__dict__.values():
+            reachable_arrays(v, seen, out, depth + 1)
+    return out
+
+
+def measure_writes(seed=0):
+    """(b) of the tie between heap model and code: on live objects of all 8 shape classes (groups nested to depth
+    2, 2-D and 3-D) x every transform class x {no batch, batch_size=2}, take the private copy `_transform` would
+    make, run `_transform_inplace` on it and record, for every object of the tree, the instance attributes whose
+    binding changed; and every array buffer whose content changed in place, every dict item rebound, every
+    attribute of the transform written.  Returns ([(class name, [attribute])], [other write])."""
+    import random
+    rng = random.Random(20260929 + seed)
+    writes, others = {}, []
+    for cls in SHAPES:
+        for d in (2, 3):
+            for kind in KINDS_ND + (KINDS_2D if d == 2 else []):
+                for batch in (None, 2):
+                    tsp = gen_transform_spec(rng, kind, 2 if kind in KINDS_2D else d)
+                    inside = pwa_domain(tsp)
+                    ssp = gen_shape_spec(rng, cls, d, 0, inside)
+                    ssp["groups"] = [["a", gen_shape_spec(rng, rng.choice(SHAPES), d, 0, inside)],
+                                     ["b", gen_shape_spec(rng, rng.choice(SHAPES), d, 0, inside)]]
+                    ssp["groups"][1][1]["groups"] = [["n", gen_shape_spec(rng, rng.choice(SHAPES), d, 0, inside)]]
+                    for node in spec_nodes(ssp):
+                        for key in ("store", "alias", "share_points"):
+                            node.pop(key, None)
+                    t = build_transform(tsp)
+                    kw = {} if batch is None else {"batch_size": batch}
+                    priv = build_shape(ssp).copy()
+                    objs = tree_objects(priv)
+                    before = [(pth, o, {k: id(v) for k, v in (o.items() if isinstance(o, dict) else o.__dict__.items())})
+                              for pth, o in objs]
+                    arrays = reachable_arrays(priv)
+                    abytes = [a.tobytes() for a in arrays]
+                    t_state = digest(t, skip=CACHE_ATTRS)
+                    try:
+                        priv._transform_inplace(lambda x: t.apply(x, **kw))
+                    except Exception as e:                                     # noqa: BLE001
+                        others.append("%s under %s raised %s" % (cls, kind, type(e).__name__))
+                        continue
+                    for pth, o, ids in before:
+                        now = {k: id(v) for k, v in (o.items() if isinstance(o, dict) else o.__dict__.items())}
+                        changed = sorted(str(k) for k in set(ids) | set(now) if ids.get(k) != now.get(k))
+                        if isinstance(o, dict):
+                            if changed:
+                                others.append("dict %s: items %s rebound (%s under %s)" % (pth, changed, cls, kind))
+                            continue
+                        name = type(o).__name__
+                        if name in writes and writes[name] != changed:
+                            others.append("%s rebinds %s under %s but %s elsewhere" % (name, changed, kind, writes[name]))
+                        writes.setdefault(name, changed)
+                    for a, b in zip(arrays, abytes):
+                        if a.tobytes() != b:
+                            others.append("an array buffer of the copy of %s was written in place under %s" % (cls, kind))
+                    if digest(t, skip=CACHE_ATTRS) != t_state:
+                        others.append("%s wrote its own attributes during _transform_inplace of %s" % (kind, cls))
+    order = [n for n in extract_c02.CLS_ORDER if n in writes] + sorted(n for n in writes if n not in extract_c02.CLS_ORDER)
+    return [(n, writes[n]) for n in order], sorted(set(others))
+
+
 def generated(ctx):
-    common.build_generated(ctx, extract_c02.lean_files(), extract_c02.TARGETS, extract_c02.N_OBLIGATIONS)
+    measured = measure_writes()
+    common.build_generated(ctx, extract_c02.lean_files(measured), extract_c02.TARGETS, extract_c02.N_OBLIGATIONS)
     rows = extract_c02.dispatch_rows()
     ctx.notes["dispatch_table"] = {n: [None if s is None else s.__name__ for s in sups] for n, sups in rows}
+    ctx.notes["inplace_writes_measured"] = {n: w for n, w in measured[0]}
+    ctx.notes["other_writes_measured"] = measured[1]
 
 
 def search(ctx):
     """directed search on the real code (oracle only) after a broken tie: every class of the table, many more draws"""
     before = ctx.evaluations
     directed(ctx, None, None)
+    histories(ctx, 12, None, None)
     explore(ctx, 4, None, None)
     ctx.searched += ctx.evaluations - before
     return bool(ctx.failures)
@@ -872,7 +1620,8 @@ def run(ctx):
     common.prepare_lean(ctx, PROP, IMPORTS, THEOREMS, generated=generated)
     lines, pending = [], {}
     directed(ctx, lines, pending)
-    explore(ctx, ctx.n(4, 24), lines, pending, model_share=ctx.n(1.0, 0.5))
+    histories(ctx, ctx.n(6, 60), lines, pending)
+    explore(ctx, ctx.n(4, 40), lines, pending, model_share=ctx.n(1.0, 0.5))
     check_model(ctx, lines, pending)
     return ctx.finish(search)
 
@@ -881,6 +1630,16 @@ def replay(ctx, path):
     data = json.load(open(path))
     rp = data.get("replay") or (data.get("broken_correspondence") or [{}])[0].get("case") or {}
     print(json.dumps({k: data[k] for k in data if k not in ("replay", "broken_correspondence")}, indent=1)[:1500])
+    if "run" in rp:
+        common.prepare_lean(ctx, PROP, IMPORTS, THEOREMS, generated=generated)
+        lines, pending = [], {}
+        ok = run_sequence(ctx, rp["run"], lines, pending)
+        print("recorded history (%s, %d calls) -> oracle %s" % (rp["run"]["scenario"], len(rp["run"]["calls"]),
+                                                                "holds" if ok else "FAILS"))
+        check_model(ctx, lines, pending)
+        for op, text, _ in ctx.mismatches:
+            print("model/implementation: %s: %s" % (op, text))
+        return ctx.finish(search)
     if "shape" not in rp:
         print("no single recorded case (broken obligation or directed case): re-running the quick check with seed %r"
               % data.get("seed"))
